@@ -211,8 +211,34 @@ def is_panic_site(s):
     return s.is_diverging() and any(n.startswith(p) for p in PANIC_CALLEES) or (s.is_diverging() and 'panic' in n)
 
 
+def consistent(f, path, decs):
+    """False if the branch decisions of a path contradict each other on the same value — drop elaboration re-tests discriminants
+    that were already decided, which creates syntactic paths no execution can take.  Only results of calls that are not inside a
+    loop are considered the same value at both tests."""
+    seen = {}
+    for d in decs:
+        b, v = d
+        cond = f.expr_operand(f.term(b)['d'], b, 'T')
+        subj = cond
+        while subj[0] in ('discr', 'as') or (subj[0] == 'field' and str(subj[2]).isdigit()) or (subj[0] == 'un' and subj[1] == 'Not'):
+            subj = subj[2] if subj[0] == 'un' else subj[1]
+        subj = peel(subj)
+        if subj[0] != 'call' or f.loops_containing(subj[3]) or f.loops_containing(b):
+            continue
+        if subj[1].split('::')[-1] in ('load', 'get', 'is_empty', 'len', 'borrow', 'contains', 'is_active', 'next'):
+            continue
+        (_, a), = path_atoms(f, path, [d])
+        if a[0] not in ('is', 'bool'):
+            continue
+        k = (a[0], a[1], subj[3])
+        if k in seen and seen[k] != a[2]:
+            return False
+        seen.setdefault(k, a[2])
+    return True
+
+
 def fn_paths(ctx, f, **kw):
-    ps = list(f.enum_paths(**kw))
+    ps = [p for p in f.enum_paths(**kw) if consistent(f, p[0], p[2])]
     ctx.paths += len(ps)
     return ps
 
